@@ -220,6 +220,51 @@ def r7_2_3(ctx: Ctx, f: Func):
         ctx.ob("R7.3", f, init[0] if init else "unvisited set", oki, "initially every atom is unvisited", node=init[0] if init else f.node)
 
 
+def _inline_helper(ctx: Ctx, f: Func, call: ast.Call):
+    """(pre-assignments [(name, expr)], early returns [(cond, expr, node)], final expr, helper Func) with the helper's
+    parameters replaced by the call's arguments and its locals renamed; None if the helper is not of that shape."""
+    import copy
+    g = ctx.repo.funcs.get(f.module.name + "." + call.func.id)
+    if g is None or g.cls is not None:
+        return None
+    params = g.params
+    if len(call.args) + len(call.keywords) != len(params) or any(k.arg is None for k in call.keywords):
+        return None
+    pmap = dict(zip(params, call.args))
+    for k in call.keywords:
+        pmap[k.arg] = k.value
+    if set(pmap) != set(params):
+        return None
+    local_names = {s.targets[0].id for s in g.node.body if isinstance(s, ast.Assign) and isinstance(s.targets[0], ast.Name)}
+
+    class Sub(ast.NodeTransformer):
+        def visit_Name(self, node):
+            if node.id in pmap and node.id not in local_names:
+                return copy.deepcopy(pmap[node.id])
+            if node.id in local_names:
+                return ast.copy_location(ast.Name("_h_" + node.id, node.ctx), node)
+            return node
+
+    def sub(e):
+        return Sub().visit(copy.deepcopy(e))
+    pre, early, final = [], [], None
+    for s in g.node.body:
+        if isinstance(s, ast.Expr) and isinstance(s.value, ast.Constant):
+            continue
+        if isinstance(s, ast.Assign) and isinstance(s.targets[0], ast.Name) and len(s.targets) == 1:
+            pre.append(("_h_" + s.targets[0].id, sub(s.value)))
+        elif isinstance(s, ast.If) and not s.orelse and len(s.body) == 1 and isinstance(s.body[0], ast.Return) and s.body[0].value is not None:
+            early.append((sub(s.test), sub(s.body[0].value), s))
+        elif isinstance(s, ast.Return) and s.value is not None:
+            final = sub(s.value)
+            break
+        else:
+            return None
+    if final is None:
+        return None
+    return pre, early, final, g
+
+
 def r7_5(ctx: Ctx, f: Func, rule="R7.5"):
     loop, q, pop = _traversal(f)
     # unpack of the queue entry
@@ -245,6 +290,27 @@ def r7_5(ctx: Ctx, f: Func, rule="R7.5"):
             break
         if isinstance(s, ast.Assign) and isinstance(s.targets[0], ast.Name):
             env[s.targets[0].id] = s.value
+    # the update may have been moved into a module-level helper: inline it (straight-line body, early returns kept apart)
+    early: list = []
+    if isinstance(st, ast.Assign) and isinstance(st.value, ast.Call) and isinstance(st.value.func, ast.Name):
+        inl = _inline_helper(ctx, f, st.value)
+        if inl is not None:
+            pre, early, final, helper = inl
+            for k_, v_ in pre:
+                env[k_] = v_
+            st = ast.copy_location(ast.Assign(st.targets, final), st)
+            ctx.seen(helper)
+    rowc_ = "%s[%s]" % (arr, child)
+    for cond, ret, node_ in early:
+        if norm(ret) != rowc_:
+            ctx.ob(rule, f, node_, True, "early return of the update helper is not the unchanged atom; not decided", undecided=True, node=node_)
+            continue
+        tol = any(isinstance(x, ast.Call) and call_name(x) in ("isclose", "allclose", "abs", "fabs", "round") for x in ast.walk(cond)) \
+            or any(isinstance(x, ast.Compare) and isinstance(x.ops[0], (ast.Lt, ast.LtE, ast.Gt, ast.GtE)) for x in ast.walk(cond))
+        ctx.ob(rule, f, "atom left where it is when %s" % norm(cond), not tol,
+               "every reached atom is put at exactly the tabulated distance: leaving it untouched is allowed only when the "
+               "separation already equals the tabulated length exactly" + ("" if not tol else " -- `%s` is a tolerance test "
+               "(numpy's default is 1e-5 relative), so bonds stay off by up to that much" % norm(cond)), node=node_)
     from ..poly import Rat
     m, b = Poly.sym("m"), Poly.sym("b")
     rowp, rowc = "%s[%s]" % (arr, par), "%s[%s]" % (arr, child)
